@@ -441,7 +441,7 @@ pub fn run(tier: &str) -> i32 {
         let unbounded_ok = space <= if thorough { 3.0e7 } else if lite { 2.0e4 } else { 5.0e5 };
         let bounds: Vec<Option<usize>> = if lite && !unbounded_ok {
             vec![Some(0), Some(1), Some(2)]
-        } else if unbounded_ok { vec![Some(0), Some(1), Some(2), None] } else if thorough { vec![Some(0), Some(1), Some(2), Some(3), Some(4), Some(5)] } else { vec![Some(0), Some(1), Some(2), Some(3), Some(4)] };
+        } else if unbounded_ok { vec![Some(0), Some(1), Some(2), None] } else if thorough { vec![Some(0), Some(1), Some(2), Some(3), Some(4), Some(5)] } else if space > 1.0e8 { vec![Some(0), Some(1), Some(2), Some(3)] } else { vec![Some(0), Some(1), Some(2), Some(3), Some(4)] };
         let pf = prefixes(&lens, 4.min(total_ops));
         let mut completed = vec![];
         for b in bounds {
@@ -518,6 +518,94 @@ pub fn run(tier: &str) -> i32 {
             }
         }
         rep.sub("long-churn", &format!("a long-lived evaluator ({} operations) stopped after each of its operations in turn while a solver loop builds, uses and drops an evaluator on each of {} distinct flops, then continued: every observation of both equals the solo run", la, lc), n, n, true, json!({"flops": lc, "split_points": la + 1}));
+    }
+
+    // (A1c) nested consumption: evaluator B is polled from INSIDE the closure that one of A's consuming adaptors
+    // (for_each, fold, map + sum, filter + count, inspect + last, try_for_each, all) runs for every showdown - the
+    // one interleaving a scheduler of whole calls cannot produce, because A's call has not returned yet
+    {
+        let gs = groups();
+        let pair: Vec<Spec> = gs.iter().find(|g| g.0 == "same-flop-other-ranges").unwrap().1.clone();
+        let cfgs: Vec<(vlib::deals::Config, (u8, u8, u8, u8))> = pair.iter().filter_map(|s| if let Spec::Eval { cfg, scope, .. } = s { Some((cfg.clone(), *scope)) } else { None }).collect();
+        let mut n = 0u64;
+        if cfgs.len() == 2 {
+            let solo_of = |i: usize| -> Vec<String> {
+                let (cfg, sc) = cfgs[i].clone();
+                catch(move || {
+                    let mut ev = cfg.evaluator();
+                    ev.scope(sc.0, sc.1, sc.2, sc.3);
+                    ev.into_iter().map(|sd| showdown_sig(&sd)).collect::<Vec<_>>()
+                })
+                .unwrap_or_else(|e| vec![format!("PANIC alone: {}", e)])
+            };
+            let solos = [solo_of(0), solo_of(1)];
+            for via in ["for_each", "fold", "map-sum", "filter-count", "inspect-last", "try_for_each", "all"] {
+                for outer in 0..2usize {
+                    n += 1;
+                    let inner = 1 - outer;
+                    let (cfg_o, sc_o) = cfgs[outer].clone();
+                    let (cfg_i, sc_i) = cfgs[inner].clone();
+                    let r = catch(move || {
+                        let mut eo = cfg_o.evaluator();
+                        eo.scope(sc_o.0, sc_o.1, sc_o.2, sc_o.3);
+                        let mut ei = cfg_i.evaluator();
+                        ei.scope(sc_i.0, sc_i.1, sc_i.2, sc_i.3);
+                        let io = eo.into_iter();
+                        let mut ii = ei.into_iter();
+                        let mut seen_o: Vec<String> = vec![];
+                        let mut seen_i: Vec<String> = vec![];
+                        {
+                            let mut body = |sd: &espada::evaluator::Showdown| {
+                                seen_o.push(showdown_sig(sd));
+                                if let Some(x) = ii.next() {
+                                    seen_i.push(showdown_sig(&x));
+                                }
+                            };
+                            match via {
+                                "for_each" => io.for_each(|sd| body(&sd)),
+                                "fold" => io.fold((), |_, sd| body(&sd)),
+                                "map-sum" => {
+                                    let _: usize = io.map(|sd| { body(&sd); 1usize }).sum();
+                                }
+                                "filter-count" => {
+                                    let _ = io.filter(|sd| { body(sd); true }).count();
+                                }
+                                "inspect-last" => {
+                                    let _ = io.inspect(|sd| body(sd)).last();
+                                }
+                                "try_for_each" => {
+                                    let mut io = io;
+                                    let _: Result<(), ()> = io.try_for_each(|sd| { body(&sd); Ok(()) });
+                                }
+                                _ => {
+                                    let mut io = io;
+                                    let _ = io.all(|sd| { body(&sd); true });
+                                }
+                            }
+                        }
+                        // the inner one is drained afterwards
+                        for x in ii {
+                            seen_i.push(showdown_sig(&x));
+                        }
+                        (seen_o, seen_i)
+                    });
+                    let problem = match r {
+                        Err(e) => Some(json!({"panic": e})),
+                        Ok((so, si)) => {
+                            if so != solos[outer] || si != solos[inner] {
+                                Some(json!({"outer_showdowns": so.len(), "outer_alone": solos[outer].len(), "inner_showdowns": si.len(), "inner_alone": solos[inner].len()}))
+                            } else {
+                                None
+                            }
+                        }
+                    };
+                    if let Some(p) = problem {
+                        rep.violation(Violation { key: format!("evaluator {} polled inside the closure of {}() over evaluator {}", inner, via, outer), sub: "nested-consumers".into(), case: json!({"via": via, "outer": outer}), expected: json!("both evaluators yield the sequences they yield alone"), observed: p });
+                    }
+                }
+            }
+        }
+        rep.sub("nested-consumers", "two evaluators on the same flop: one is consumed through for_each, fold, map+sum, filter+count, inspect+last, try_for_each and all, and the closure polls the OTHER one once per showdown (either way round); both sequences equal the solo sequences", n, n, true, json!({}));
     }
 
     // (A2) thread hand-offs on REAL OS threads: every operation of every interleaving is run on one of two
